@@ -341,11 +341,12 @@ def handle (j : Json) : Except String Json := do
       pure (Json.mkObj [("w", Json.num (JsonNumber.fromNat (findWidthOn grid prof)))])
   | "interp" =>
       let align ← getBool j "align_corners"; let nearest ← getBool j "nearest"
+      let pad := match getNat j "padding" with | .ok p => p | .error _ => 0
       let shape ← getNats j "shape"
       let img := (← getRats j "img").toArray
       let pts ← j.getObjValAs? (Array (Array String)) "points"
       let outs ← pts.toList.mapM (fun p => match p.toList.mapM parseRat with
-        | some c => pure (interpND align nearest shape (fun i => img.getD i 0) c)
+        | some c => pure (interpNDP pad align nearest shape (fun i => img.getD i 0) c)
         | none => throw "point")
       pure (Json.mkObj [("out", ratsJson outs)])
   | "rot" => pure (Json.mkObj [("out", floatsJson (← rotFn j))])
